@@ -14,6 +14,7 @@ META = {
                     'Message::length(&m) is pure (same value on an unmodified message)'],
     'trusted_base': ['rustc nightly MIR construction', 'mirfacts exporter', 'rules/c14.py, sym.py, facts.py'],
 }
+META['explanation'] += ' The delivery of Link::write is not inside a loop (no whole-buffer retry after a partial write).'
 
 STREAM_WRITE = 'model::link::Stream::<S>::write'
 STREAM_WRITE_ALL = 'model::link::Stream::<S>::write_all'
